@@ -1,7 +1,7 @@
 SPECIFICATION Spec
 CONSTANTS
   NUri = 2
-  NText = 5
+  NText = 6
   MaxHist = 3
   Kinds = {"open", "change1", "change2"}
   Emit = FALSE
